@@ -5,7 +5,6 @@ CONSTANTS
   QCap = 2
   StrictReply = FALSE
   Classes = {"plain", "clientAbandons"}
-  EvictOldest = FALSE
+  EvictOldest = TRUE
 INVARIANTS TypeOK Serving TasksAlive NoHandlerDies
-PROPERTIES EveryRequestAnswered
 CHECK_DEADLOCK FALSE
